@@ -136,7 +136,7 @@ package parsepasses
 // the message pass reaches every {msg} of a template: it descends into every
 // child of every node that has children.
 //@ func processTemplateMsgs
-//@   props C13
+//@   props C13 C10
 //@   nosafety
 //@   noterm
 //@   modifies *
@@ -144,7 +144,19 @@ package parsepasses
 //@   ghost nchildren int = -1
 //@   at call ast.ParentNode.Children#0 after set nchildren = len(res)
 //@   at call parsepasses.processTemplateMsgs#0 after set visited = visited + 1
-//@   at call soymsg.SetPlaceholdersAndID#0 assert[ids-for-this-message;C13] arg0 == unbox(node, *ast.MsgNode)
-//@   ensures[every-child-visited;C13] implements(node, ast.ParentNode) && !typeis(node, *ast.MsgNode) ==> visited == nchildren
+//@   at call soymsg.SetPlaceholdersAndID#0 assert[ids-for-this-message;C13,C10] arg0 == unbox(node, *ast.MsgNode)
+//@   ensures[every-child-visited;C13,C10] implements(node, ast.ParentNode) && !typeis(node, *ast.MsgNode) ==> visited == nchildren
 //@   loop 0
-//@     invariant[children-visited-so-far;C13] visited == rangeindex + 1 && visited <= nchildren
+//@     invariant[children-visited-so-far;C13,C10] visited == rangeindex + 1 && visited <= nchildren
+
+// C10: every template of the bundle gets its message ids and placeholder names.
+//@ func ProcessMessages
+//@   props C10 C13
+//@   nosafety
+//@   modifies *
+//@   ghost visited int = 0
+//@   at call parsepasses.processTemplateMsgs#0 assert[the-template's-own-tree;C10] typeis(arg0, *ast.TemplateNode) && unbox(arg0, *ast.TemplateNode) == reg.Templates[visited].Node
+//@   at call parsepasses.processTemplateMsgs#0 after set visited = visited + 1
+//@   ensures[every-template-visited;C10] visited == len(reg.Templates)
+//@   loop 0
+//@     invariant[visited-so-far;C10] visited == rangeindex + 1 && visited <= len(reg.Templates)
